@@ -116,7 +116,19 @@ func init() {
 		propRules[pid] = append(propRules[pid], Rule{Name: "E17.unchecked", Run: runUncheckedResult})
 	}
 	propRules["C14"] = append(propRules["C14"], Rule{Name: "E11.consumers", Run: runLookupConsumers})
-	for _, pid := range []string{"C09", "C10", "C14"} {
+	for _, pid := range []string{"C07", "C16"} {
+		propRules[pid] = append(propRules[pid], Rule{Name: "E11.keyreader", Run: runKeyReader})
+	}
+	propRules["C20"] = append(propRules["C20"], Rule{Name: "E5.signature", Run: onlyFns(runE5, "E5.signature-copy-obligations", "FunctionSignature")})
+	for _, pid := range []string{"C01", "C17"} {
+		propRules[pid] = append(propRules[pid], Rule{Name: "E4.P6", Run: runInterfaceCompare})
+	}
+	propRules["C13"] = append(propRules["C13"], Rule{Name: "E6.files", Run: e6ForFiles("_semtok.go", "semantic_tokens.go", "fn:emanticTokens")})
+	propRules["C12"] = append(propRules["C12"], Rule{Name: "E6.files", Run: e6ForFiles("_hover.go", "decoder/hover.go", "fn:hover", "fn:Hover")})
+	propRules["C14"] = append(propRules["C14"], Rule{Name: "E6.files", Run: e6ForFiles("symbols.go", "symbol.go")})
+	propRules["C10"] = append(propRules["C10"], Rule{Name: "E6.files", Run: e6ForFiles("_ref_origins.go", "reference_origins.go", "reference/traversal.go", "fn:refOrigins", "fn:ReferenceOrigins")})
+	propRules["C09"] = append(propRules["C09"], Rule{Name: "E6.files", Run: e6ForFiles("_ref_targets.go", "reference_targets.go", "fn:ReferenceTargets")})
+	for _, pid := range []string{"C09", "C10", "C14", "C20", "C06", "C07", "C08"} {
 		propRules[pid] = append(propRules[pid], Rule{Name: "E1.skiprows", Run: runSkipRows(pid)})
 	}
 	for _, pid := range []string{"C06", "C07", "C08"} {
